@@ -852,3 +852,40 @@ def integer_valued(r: "Rat") -> bool:
             if not ((at.kind == "fn" and at.name in _INT_FNS) or at.skey in INT_ATOMS):
                 return False
     return True
+
+
+# --------------------------------------------------------------------------
+# atom rewriting
+# --------------------------------------------------------------------------
+
+def rewrite_atoms(r: "Rat", fn) -> "Rat":
+    """Rebuild r bottom-up; fn(atom) may return a replacement (a Rat) for an atom whose arguments are already rebuilt."""
+    def poly(p) -> Rat:
+        acc = Rat.const(0)
+        for m, c in p.items():
+            term = Rat.const(c)
+            for a_, e_ in m:
+                term = term.mul(atom(a_).pow(e_))
+            acc = acc.add(term)
+        return acc
+
+    def atom(a_: Atom) -> Rat:
+        if a_.kind == "fn" and a_.args:
+            args = tuple(rewrite_atoms(x, fn) for x in a_.args)
+            base = apply_fn(a_.name, args, a_.array, a_.extra)
+        else:
+            base = Rat.from_atom(a_)
+        ats = base.atoms()
+        if len(ats) == 1 and base.equals(Rat.from_atom(ats[0])):
+            out = fn(ats[0])
+            if out is not None:
+                return out
+        return base
+    return poly(r.num).div(poly(r.den))
+
+
+def replace_atoms(r: "Rat", mapping: Dict) -> "Rat":
+    """Replace atoms (by structural key) everywhere in r, nested occurrences included."""
+    if not mapping:
+        return r
+    return rewrite_atoms(r, lambda a_: mapping.get(a_.skey))
